@@ -244,6 +244,7 @@ impl Scenario for C08 {
         let mut sig_parts: Vec<String> = Vec::new();
         let mut pruned_any = false;
         let mut main_gc_done = false;
+        let mut main_wmax: Option<u64> = None;
         'outer: for (step, ev) in case.events.iter().enumerate() {
             let kind = op(ev).to_string();
             // collections of the main history are compared in place
@@ -257,6 +258,7 @@ impl Scenario for C08 {
                     pruned_any = true;
                     main_gc_done = true;
                 }
+                main_wmax = Some(main_wmax.map_or(r.watermark, |w: u64| w.max(r.watermark)));
                 if !r.violations.is_empty() {
                     for v in r.violations {
                         o.violate(v);
@@ -316,6 +318,46 @@ impl Scenario for C08 {
                         o.violate(v);
                     }
                     break 'outer;
+                }
+            }
+        }
+        // ---- a collection must not change a read it has to preserve *later* either: replay
+        // the same history without its collections into a twin store and compare every
+        // read at a version >= the highest watermark used (a collection that leaves
+        // damaged bookkeeping behind shows only once the history continues).
+        if let (Some(wmax), true) = (main_wmax, o.violations.is_empty()) {
+            let mut g2 = GraphStore::new();
+            let mut m2 = Model::default();
+            let mut ok = true;
+            for ev in case.events.iter() {
+                let k = op(ev);
+                if k == "gc" || k == "gc_auto" {
+                    continue;
+                }
+                if let Applied::Refused { .. } = apply(ev, &mut g2, &mut m2, &lim) {
+                    ok = false;
+                    break;
+                }
+            }
+            if ok && m2.current == m.current {
+                o.probe("main_history_compared_with_uncollected_twin");
+                let a = read_vector(&g, &m, m.current + 1);
+                let b = read_vector(&g2, &m2, m2.current + 1);
+                for ((kind, id, v), got) in &a {
+                    if *v < wmax {
+                        continue;
+                    }
+                    if let Some(want) = b.get(&(*kind, *id, *v)) {
+                        if want != got {
+                            let what = if *kind == 'n' { "node_at_version" } else { "edge_at_version" };
+                            o.violate(Violation::new(
+                                format!("C08/collected_vs_uncollected_history/{what}/differs_at_or_above_watermark"),
+                                format!("{kind}{id}@v{v} (highest watermark used {wmax}): with the collections {got}, same history without them {want}"),
+                                case.events.len(),
+                            ));
+                            break;
+                        }
+                    }
                 }
             }
         }
